@@ -2,11 +2,11 @@
 {
  "property": "C17",
  "failed_obligation": "_snapshot.min_max_value.MinMaxValue._generic_cmp#MinValue/post:stores-only-copies",
- "path": 1,
+ "path": 3,
  "function": "inline_snapshot._snapshot.min_max_value.MinMaxValue._generic_cmp#MinValue",
  "verdict": "refuted",
  "backend": "z3-5.1",
- "solver_model": "FalseVal = Val!val!1\nNoneVal = Val!val!2\nNone_Val = Val!val!5\nTrueVal = Val!val!0\ndeepcopy_Val = [else ->\n If(And(Var(0) == Val!val!4,\n        Not(Var(0) == Val!val!3),\n        Not(Var(0) == Val!val!5),\n        Not(Var(0) == Val!val!6),\n        Not(Var(0) == Val!val!2),\n        Not(Var(0) == Val!val!0)),\n    Val!val!4,\n    Val!val!6)]\nisinst_Hashable = [Val!val!3 -> True, else -> False]\nother!4 = Val!val!3\nself._new_value!2 = Val!val!4\nself._old_value!1 = Val!val!4\ntruthy_Val = [Val!val!0 -> True, else -> False]\nundefined_Val = Val!val!4",
+ "solver_model": "FalseVal = Val!val!1\nNoneVal = Val!val!2\nTrueVal = Val!val!0\ndeepcopy_Val = [else ->\n If(And(Var(0) == Val!val!4,\n        Not(Var(0) == Val!val!7),\n        Not(Var(0) == Val!val!2),\n        Not(Var(0) == Val!val!0),\n        Not(Var(0) == Val!val!5)),\n    Val!val!4,\n    Val!val!7)]\nle_Val = [else -> Val!val!6]\nother!4 = Val!val!3\nself._new_value!2 = Val!val!5\nself._old_value!1 = Val!val!4\ntruthy_Val = [Val!val!0 -> True, else -> False]\nundefined_Val = Val!val!4",
  "where": ""
 }
 """
